@@ -46,6 +46,10 @@ pub const TEMPLATES: &[&str] = &[
     "local t = {§TableExpression.tokens+TableTokens.opening_brace a§TableExpression.entries+TableFieldEntry.field =§TableFieldEntry.token 1 ,§TableTokens.separators [§TableIndexEntry.tokens+TableIndexEntryTokens.opening_bracket \"k\" ]§TableIndexEntryTokens.closing_bracket =§TableIndexEntryTokens.equal 2 ;§TableTokens.separators 3 }§TableTokens.closing_brace",
     "local r = if§IfExpression.tokens+IfExpressionTokens.if c then§IfExpressionTokens.then 1 elseif§IfExpression.branches+ElseIfExpressionBranch.tokens+ElseIfExpressionBranchTokens.elseif d then§ElseIfExpressionBranchTokens.then 2 else§IfExpressionTokens.else 3",
     "local s = `a{§<InterpolatedStringExpression.tokens+<InterpolatedStringTokens.opening_tick+>InterpolatedStringExpression.segments+>ValueSegment.tokens+>ValueSegmentTokens.opening_brace x }b{§<ValueSegmentTokens.closing_brace+>ValueSegmentTokens.opening_brace y }c`§<ValueSegmentTokens.closing_brace+>InterpolatedStringTokens.closing_tick+>InterpolatedStringExpression.tokens",
+    // interpolated values that start with a table constructor: the table's `{` right behind the value's `{`
+    "local it = `{§>ValueSegmentTokens.opening_brace {§TableExpression.tokens+TableTokens.opening_brace 1 ,§TableTokens.separators 2 }§TableTokens.closing_brace }`§<ValueSegmentTokens.closing_brace",
+    "local iu = `a{§>ValueSegmentTokens.opening_brace {§TableTokens.opening_brace }§TableTokens.closing_brace ::§TypeCastExpression.token any }b{§<ValueSegmentTokens.closing_brace+>ValueSegmentTokens.opening_brace {§TableTokens.opening_brace x = 1 }§TableTokens.closing_brace ==§BinaryExpression.token t }c`",
+    "local iv = `{ {§TableTokens.opening_brace }§TableTokens.closing_brace ..§BinaryExpression.token x }`",
     "local v = w ::§TypeCastExpression.token any",
     "local function va ( ... ) return true§manual:Expression::True , false§manual:Expression::False , nil§manual:Expression::Nil , ...§manual:Expression::VariableArguments end",
     // type declarations
